@@ -8,7 +8,7 @@ from pathsum import ERR, NONE, OK, SOME, show_term, strip_sites
 
 RERUN_ON_CONFIGS = ("dfm", "std")
 LEVEL = "other"
-RULE_TEXT = ("C06-R: per loop-body path of Interface::run - Incomplete: no report, input returned unchanged; other parse "
+RULE_TEXT = ("C06-ST: no body of the library names a static that can change at run time (memory of earlier messages; rule C12-P). C06-R: per loop-body path of Interface::run - Incomplete: no report, input returned unchanged; other parse "
              "error: exactly one handle_error(From(error)) and the next input starts after the faulty message's "
              "terminator (or is empty), never at the faulty bytes; execution error: exactly one handle_error with the "
              "payload of execute's Err, unchanged; success: none; at most one report per path; input' = remainder. "
@@ -119,6 +119,10 @@ def run(ck):
     # every message a response buffer of its own and its bytes unchanged (the K-rules of C07)
     import c07
     c07.rule_K(ck, lib, "C06-K")
+    # "as if the faulty message had never been sent": besides the loop-carried locals of run and process (C06-S) the library
+    # keeps no memory in a static that can change at run time (rule C12-P)
+    import c12
+    c12.rule_STATE(ck, lib, "C06-ST")
 
 
 def rule_R(ck, lib, RID):
